@@ -5,6 +5,7 @@
 (*                                                                                        *)
 (* Data = [insts |-> instances (POMDP + controller), eps |-> episodes]; an episode is        *)
 (*   iid, s0 (initial state), given (1 iff the caller passed the initial state), maxsteps,   *)
+(*   agw (node weights passed as initial_agentstate; empty = none passed),                  *)
 (*   ag0 (initial agent state, quantised), steps = <<[s, a, ns, o, rq, agq, nagq, adq], ...>>,*)
 (*   (adq = controller.action_dist(agent state of the step), the distribution a was drawn    *)
 (*   from, quantised)                                                                       *)
@@ -75,16 +76,20 @@ EndVerdict(m, e, s, cap) ==
   ELSE IF s \notin ExplAbs(m) /\ Len(e.steps) < cap THEN "stopped-before-absorbing-state"
   ELSE ""
 
+\* node weights the episode starts from: run_on(..., initial_agentstate = agw / sum) when the caller passed
+\* one (agw non-empty), otherwise the controller's own initial node distribution
+StartNodes(m, e) == IF Len(e.agw) = 0 THEN InitNodes(m) ELSE NReduce(m, [n \in Nd(m) |-> e.agw[n]])
+
 Init ==
   /\ tid \in 1..Len(Data.eps)
   /\ l = IF InitVerdict(Data.insts[Data.eps[tid].iid], Data.eps[tid]) = "" THEN 1
          ELSE Len(Data.eps[tid].steps) + 2
   /\ es = Data.eps[tid].s0
-  /\ ag = InitNodes(Data.insts[Data.eps[tid].iid])
-  /\ agn = InitNodes(Data.insts[Data.eps[tid].iid])
+  /\ ag = StartNodes(Data.insts[Data.eps[tid].iid], Data.eps[tid])
+  /\ agn = StartNodes(Data.insts[Data.eps[tid].iid], Data.eps[tid])
   /\ bad = InitVerdict(Data.insts[Data.eps[tid].iid], Data.eps[tid])
   /\ agv = AgVerdict(Data.insts[Data.eps[tid].iid], Data.eps[tid].ag0,
-                     InitNodes(Data.insts[Data.eps[tid].iid]), InitNodes(Data.insts[Data.eps[tid].iid]), "ok")
+                     StartNodes(Data.insts[Data.eps[tid].iid], Data.eps[tid]), StartNodes(Data.insts[Data.eps[tid].iid], Data.eps[tid]), "ok")
 
 \* one iteration of the loop of run_on
 StepEv ==
